@@ -308,15 +308,15 @@ func (t *ZeroAllocTokenizer) TokenizeExpression(expr string) []Token {
 		}
 
 		// Handle identifiers, literals, etc.
-		if (c >= 'a' && c <= 'z') || (c >= 'A' && c <= 'Z') || c == '_' {
-			// Start of an identifier
+		if isCharAlpha(c) || c == '_' {
+			// Start of an identifier (letters of any script: the bytes of a
+			// multi-byte character are name characters, as in Twig)
 			start := t.position
 
 			// Find the end
 			t.position++
 			for t.position < len(t.source) &&
-				((t.source[t.position] >= 'a' && t.source[t.position] <= 'z') ||
-					(t.source[t.position] >= 'A' && t.source[t.position] <= 'Z') ||
+				(isCharAlpha(t.source[t.position]) ||
 					(t.source[t.position] >= '0' && t.source[t.position] <= '9') ||
 					t.source[t.position] == '_') {
 				t.position++
@@ -830,7 +830,7 @@ func isSimpleName(s string) bool {
 
 // isCharAlpha checks if a byte is an alphabetic character
 func isCharAlpha(c byte) bool {
-	return (c >= 'a' && c <= 'z') || (c >= 'A' && c <= 'Z')
+	return (c >= 'a' && c <= 'z') || (c >= 'A' && c <= 'Z') || c >= 0x80
 }
 
 // tokenizeObjectContents handles object literal contents
